@@ -68,6 +68,15 @@ func c33PutU16s(xs []int) []byte {
 
 func c33Hex(b []byte) string { return H(b) }
 
+// c33Scribble overwrites a slice the harness has passed to Write, right after Write returned: io.Writer forbids
+// Write to retain p, so the writer may reuse its buffer at once; whatever the peer reads later must still be the
+// bytes as they were at the time of the call.
+func c33Scribble(p []byte) {
+	for i := range p {
+		p[i] = ^p[i]
+	}
+}
+
 // waitAll waits for wg with the failure-detector timeout.
 func c33Wait(wg *sync.WaitGroup) bool {
 	ch := make(chan struct{})
@@ -243,8 +252,10 @@ func c33BuildSeq(a [][]byte) *Case {
 				return nil
 			}
 			p := c33Payload(x%256, x/256)
+			buf := append([]byte(nil), p...) // the writer's own buffer: reused (scribbled) as soon as Write returns
 			conns[e].SetWriteDeadline(expired)
-			n, err := conns[e].Write(p)
+			n, err := conns[e].Write(buf)
+			c33Scribble(buf)
 			switch err {
 			case nil:
 				if closed {
@@ -460,7 +471,10 @@ func c33BuildBigW(a [][]byte) *Case {
 	for i := 0; i < pending; i++ {
 		p := c33Payload(seed+i, 10+i)
 		w.SetWriteDeadline(expired)
-		if n, err := w.Write(p); err == nil && n == len(p) {
+		buf := append([]byte(nil), p...)
+		n, err := w.Write(buf)
+		c33Scribble(buf)
+		if err == nil && n == len(p) {
 			want = append(want, p...)
 		} else if n > 0 && n <= len(p) {
 			want = append(want, p[:n]...)
@@ -496,7 +510,8 @@ func c33BuildBigW(a [][]byte) *Case {
 	}
 	rc := make(chan res, 1)
 	done := make(chan struct{})
-	go func() { n, err := w.Write(data); rc <- res{n, err}; close(done) }()
+	wbuf := append([]byte(nil), data...)
+	go func() { n, err := w.Write(wbuf); c33Scribble(wbuf); rc <- res{n, err}; close(done) }()
 	if !c33WaitCh(done) {
 		pc.Close()
 		return &Case{Impl: "write stuck", Tags: []string{"bigw"}, Judge: func([]string) Verdict {
@@ -548,6 +563,8 @@ func c33BuildBigW(a [][]byte) *Case {
 			what = "is longer than"
 		} else if len(got) < len(want) && bytes.HasPrefix(want, got) {
 			what = "is shorter than"
+		} else if len(got) == len(want) {
+			key = "peer-read-modified-bytes" // right amount, other content: e.g. the pipe kept a reference to the writer's slice
 		}
 		fail(key, "Write of %d bytes with %d buffers pending (mode %d) returned (n=%d, err=%v): the peer read %d bytes, which %s the %d bytes reported as written (pending %d + n %d)",
 			size, pending, mode, r.n, r.err, len(got), what, len(want), len(want)-n, n)
@@ -561,7 +578,7 @@ func c33BuildBigW(a [][]byte) *Case {
 	if r.err != nil {
 		tags = append(tags, "bigw-failed")
 	}
-	return &Case{Impl: impl, Tags: tags, Nontrivial: size > 256*1024,
+	return &Case{Impl: impl, Tags: tags, Nontrivial: size >= 1024,
 		Judge: func([]string) Verdict {
 			c33Stalls.Store(0)
 			if viol != nil {
@@ -626,7 +643,9 @@ func c33BuildConc(a [][]byte) *Case {
 		for k, sz := range sizes {
 			startedAfterClose := closeReturned.Load()
 			p := c33Chunk(sd, k, sz)
-			n, err := c.Write(p)
+			buf := append([]byte(nil), p...)
+			n, err := c.Write(buf)
+			c33Scribble(buf)
 			if err == nil {
 				if n != len(p) {
 					fail("short-write", "Write of %d bytes returned n=%d", len(p), n)
@@ -923,7 +942,9 @@ func c33BuildLnSeq(a [][]byte) *Case {
 				c, err := ln.Dial()
 				d.conn, d.err = c, err
 				if err == nil {
-					c.Write(c33Token(d.id))
+					tok := c33Token(d.id)
+					c.Write(tok)
+					c33Scribble(tok)
 				}
 				close(d.done)
 			}()
@@ -1182,7 +1203,9 @@ func c33BuildLnConc(a [][]byte) *Case {
 				mu.Lock()
 				dialOK[id] = true
 				mu.Unlock()
-				c.Write(c33Token(id))
+				tok := c33Token(id)
+				c.Write(tok)
+				c33Scribble(tok)
 				c.Close()
 			}
 		}(k)
@@ -1500,7 +1523,9 @@ func c33GenLnConc(r *Rand, emit func(string, ...[]byte)) {
 func init() {
 	Register(&Prop{
 		ID: "C33",
-		Rule: "bigw: one Write of 256 KiB+1..2 MiB with 0..4 buffers pending and a peer that is not reading, under an expired / 3 ms write deadline, a Close 3 ms later or a late small read; whatever (n, err) it returns the peer must read exactly pending ++ data[:n] then EOF (all boundary sizes x pending with expired deadline + a timed sample); " +
+		Rule: "every slice passed to Write is overwritten by the harness as soon as Write returns (Write must not retain p), so the peer must read the bytes as they were at the call; " +
+			"bigw also covers 2^k-1, 2^k, 2^k+1 for k = 10..20; " +
+			"bigw: one Write of 256 KiB+1..2 MiB with 0..4 buffers pending and a peer that is not reading, under an expired / 3 ms write deadline, a Close 3 ms later or a late small read; whatever (n, err) it returns the peer must read exactly pending ++ data[:n] then EOF (all boundary sizes x pending with expired deadline + a timed sample); " +
 			"seq additionally gets sequences with big writes compared with the model; " +
 			"seq: random single-goroutine sequences (1..~50 ops) of Write(end, 0..10000 position-dependent bytes) / Read(end, 0..8192) / Close on a real PipeConns, " +
 			"expired deadlines make a full/empty channel observable as `block`, bursts of 5-6 writes hit the capacity, Close anywhere, drain to EOF twice; " +
@@ -1559,6 +1584,16 @@ func init() {
 				for pend := 0; pend <= 4; pend++ {
 					emit("bigw", N(sz), N(pend), N(0), N(r.Intn(200)))
 				}
+			}
+			// every power-of-two boundary 1 KiB .. 1 MiB (2^k-1, 2^k, 2^k+1): the writer reuses its buffer right after Write
+			for k := 10; k <= 20; k++ {
+				for dlt := -1; dlt <= 1; dlt++ {
+					emit("bigw", N(1<<k+dlt), N(r.Intn(3)), N(0), N(r.Intn(200)))
+				}
+			}
+			for _, sz := range []int{65535, 65536, 65537, 32768, 131072} {
+				emit("seq", d("W"), d("1"), N(sz*256+r.Intn(256)), d("W"), d("2"), N((sz+1)*256+r.Intn(256)), d("R"), d("2"), N(1+r.Intn(70000)),
+					d("R"), d("1"), N(200000), d("R"), d("2"), N(200000), d("C"), d("0"), nil, d("R"), d("2"), N(10))
 			}
 			nBigT := 24
 			if tier == "thorough" {
